@@ -8,8 +8,8 @@ Trace == ndJsonDeserialize("trace.ndjson")
 Seq12 == <<1, 2>>
 Seq11 == <<1, 1>>
 Rates == {<<1, 2>>}
-VARIABLES l, supply0, win
-tvars == <<vars, l, supply0, win>>
+VARIABLES l, supply0, win, carry
+tvars == <<vars, l, supply0, win, carry>>
 
 Report(name, cond) == cond \/ PrintT(<<"MONFAIL", name, l>>)
 Conf(name, cond)   == cond \/ PrintT(<<"CONFFAIL", name, l>>)
@@ -70,7 +70,7 @@ TrInit == IsEvent("Init") /\ LET e == Trace[l] IN
   /\ tax' = [d \in Denoms |-> NoTax] /\ limit' = [d \in Denoms |-> NoLimit]
   /\ accepted' = {} /\ refunded' = {} /\ burned' = {} /\ deposited' = [d \in Denoms |-> 0]
   /\ burnedSum' = [d \in Denoms |-> 0] /\ punished' = {} /\ sent' = <<>>
-  /\ supply0' = [d \in Denoms |-> e.obs.supply[d]]
+  /\ supply0' = [d \in Denoms |-> e.obs.supply[d]] /\ carry' = <<>>
   /\ win' = [d \in Denoms |-> NoUsage]
   /\ Report("Setup.Period", e.period = Period)
   /\ Report("Setup.Empty", pool' = {} /\ batches' = {} /\ \A d \in Denoms : escrow'[d] = 0)
@@ -86,7 +86,7 @@ TrSend == IsEvent("Send") /\ LET e == Trace[l]  a == e.args  d == TokDenom[a.t] 
             THEN [win EXCEPT ![d] = IF @ = NoUsage \/ height - @.start >= Period THEN [total |-> a.a, start |-> height]
                                     ELSE [total |-> @.total + a.a, start |-> @.start]]
             ELSE win
-  /\ UNCHANGED <<lastBatch, tax, limit, claims, refunded, burned, deposited, burnedSum, punished, supply0>>
+  /\ UNCHANGED <<lastBatch, tax, limit, claims, refunded, burned, deposited, burnedSum, punished, supply0, carry>>
   /\ Always(e)
   /\ (e.res = "ok" =>
         /\ Report("C15.TaxExact", bal[a.u][d] - bal'[a.u][d] = a.a + x)
@@ -99,7 +99,7 @@ TrSend == IsEvent("Send") /\ LET e == Trace[l]  a == e.args  d == TokDenom[a.t] 
 TrCancel == IsEvent("Cancel") /\ LET e == Trace[l]  a == e.args IN
   /\ Obs(e.obs) /\ res' = e.res
   /\ refunded' = IF e.res = "ok" THEN refunded \cup {a.id} ELSE refunded
-  /\ UNCHANGED <<lastTx, lastBatch, tax, limit, claims, accepted, burned, deposited, burnedSum, punished, sent, supply0, win>>
+  /\ UNCHANGED <<lastTx, lastBatch, tax, limit, claims, accepted, burned, deposited, burnedSum, punished, sent, supply0, win, carry>>
   /\ Always(e)
   /\ (e.res = "ok" =>
         /\ Report("C01.CancelOnlyOwnPooled", \E tx \in pool : tx.id = a.id /\ tx.sender = a.u)
@@ -110,14 +110,14 @@ TrCancel == IsEvent("Cancel") /\ LET e == Trace[l]  a == e.args IN
 TrSetTax == IsEvent("SetTax") /\ LET e == Trace[l]  a == e.args IN
   /\ Obs(e.obs) /\ res' = e.res
   /\ tax' = [tax EXCEPT ![a.d] = [num |-> a.num, den |-> a.den, exempt |-> SeqSet(a.ex)]]
-  /\ UNCHANGED <<lastTx, lastBatch, limit, claims, supply0, win>> /\ NoMon
+  /\ UNCHANGED <<lastTx, lastBatch, limit, claims, supply0, win, carry>> /\ NoMon
   /\ Always(e)
   /\ Conf("SetTax", SetTax(a.d, <<a.num, a.den>>, SeqSet(a.ex)))
 
 TrSetLimit == IsEvent("SetLimit") /\ LET e == Trace[l]  a == e.args IN
   /\ Obs(e.obs) /\ res' = e.res
   /\ limit' = [limit EXCEPT ![a.d] = [limit |-> a.lim, exempt |-> SeqSet(a.ex)]]
-  /\ UNCHANGED <<lastTx, lastBatch, tax, claims, supply0, win>> /\ NoMon
+  /\ UNCHANGED <<lastTx, lastBatch, tax, claims, supply0, win, carry>> /\ NoMon
   /\ Always(e)
   /\ Conf("SetLimit", SetLimit(a.d, a.lim, SeqSet(a.ex)))
 
@@ -127,7 +127,7 @@ ClaimRec(act, a) == IF act = "ClaimExecuted"
 TrClaim(act) == IsEvent(act) /\ LET e == Trace[l]  a == e.args IN
   /\ Obs(e.obs) /\ res' = e.res
   /\ claims' = IF e.res = "ok" THEN Append(claims, ClaimRec(act, a)) ELSE claims
-  /\ UNCHANGED <<lastTx, lastBatch, tax, limit, supply0, win>> /\ NoMon
+  /\ UNCHANGED <<lastTx, lastBatch, tax, limit, supply0, win, carry>> /\ NoMon
   /\ Always(e)
   /\ Report("C01.ClaimVoteTouchesNothing", BridgeState' = BridgeState)
 
@@ -139,22 +139,19 @@ RECURSIVE SubsetSums(_, _)
 SubsetSums(cs, d) == IF cs = <<>> THEN {0}
                      ELSE LET r == SubsetSums(Tail(cs), d)  c == Head(cs) IN
                           IF c.kind = "deposit" /\ TokDenom[c.tok] = d THEN r \cup {x + c.amt : x \in r} ELSE r
-\* A faulted end block may have applied only some of the pending claims (the tally stops at the failing one and the rest
-\* wait for the next block): the deposits it did apply are, per denom, a PREFIX of that denom's pending deposits (nonce
-\* order) whose amounts explain the observed inflow; an executed-batch claim is done when its batch is gone.
-RECURSIVE StillPending(_, _)
-StillPending(cs, rem) ==
-  IF cs = <<>> THEN <<>>
-  ELSE LET c == Head(cs)  d == TokDenom[c.tok] IN
-       IF c.kind = "deposit"
-       THEN IF rem[d] >= c.amt /\ c.amt > 0 THEN StillPending(Tail(cs), [rem EXCEPT ![d] = @ - c.amt])
-            ELSE <<c>> \o StillPending(Tail(cs), [rem EXCEPT ![d] = 0])
-       ELSE IF \E b \in batches' : b.nonce = c.nonce THEN <<c>> \o StillPending(Tail(cs), rem)
-            ELSE StillPending(Tail(cs), rem)
+\* A faulted end block may have applied only some of the pending claims (the tally stops at a failing one; a claim whose
+\* handler failed is consumed without effect, one that failed after its handler is applied): which ones is not observable,
+\* so the claims pending at a faulted end block are CARRIED as possibly pending until the next fault-free end block.
+\* all deposit claims of this history that reached quorum so far (walks the recorded trace back to the history's Init)
+RECURSIVE ClaimedSoFar(_, _)
+ClaimedSoFar(i, d) == IF i < 1 \/ Trace[i].act = "Init" THEN 0
+                      ELSE (IF Trace[i].act = "ClaimDeposit" /\ Trace[i].res = "ok" /\ TokDenom[Trace[i].args.t] = d THEN Trace[i].args.a ELSE 0)
+                           + ClaimedSoFar(i - 1, d)
 TrEndBlock == IsEvent("EndBlock") /\ LET e == Trace[l]  m == EndBlockResult
                                       legit == {tx \in Gone : tx.id \in m.burned \ burned} IN
   /\ Obs(e.obs) /\ res' = e.res
-  /\ claims' = IF e.fired THEN StillPending(claims, [d \in Denoms |-> Inflow(d)]) ELSE <<>>
+  /\ claims' = <<>>
+  /\ carry' = IF e.fired THEN carry \o claims ELSE <<>>
   /\ burned' = burned \cup {tx.id : tx \in legit}
   /\ burnedSum' = [d \in Denoms |-> burnedSum[d] + SumCost({tx \in legit : TokDenom[tx.tok] = d})]
   /\ deposited' = [d \in Denoms |-> deposited[d] + Inflow(d)]
@@ -162,29 +159,30 @@ TrEndBlock == IsEvent("EndBlock") /\ LET e == Trace[l]  m == EndBlockResult
   /\ UNCHANGED <<lastTx, tax, limit, accepted, refunded, punished, sent, supply0, win>>
   /\ Always(e)
   /\ Report("C01.EndBlockKeepsUserFunds", \A u \in Users, d \in Denoms : bal'[u][d] >= bal[u][d])
-  /\ Report("C01.DepositsOnlyAttested", \A d \in Denoms : Inflow(d) \in SubsetSums(claims, d))
-  /\ (~e.fired => Report("C01.DepositsAppliedOnce", \A d \in Denoms : deposited'[d] = m.deposited[d]))
-  /\ (~e.fired => /\ ConfD("EndBlock.pool", pool' = m.pool, <<pool', m.pool>>)
+  /\ Report("C01.DepositsOnlyAttested", \A d \in Denoms : Inflow(d) \in SubsetSums(carry \o claims, d))
+  /\ Report("C01.DepositsAtMostOnce", \A d \in Denoms : deposited'[d] <= ClaimedSoFar(l, d))   \* also across faulted end blocks
+  /\ ((~e.fired /\ carry = <<>>) => Report("C01.DepositsAppliedOnce", \A d \in Denoms : deposited'[d] = m.deposited[d]))
+  /\ ((~e.fired /\ carry = <<>>) => /\ ConfD("EndBlock.pool", pool' = m.pool, <<pool', m.pool>>)
                   /\ ConfD("EndBlock.batches", batches' = m.batches, <<batches', m.batches>>)
                   /\ Conf("EndBlock.funds", escrow' = m.escrow /\ supply' = m.supply /\ bal' = m.bal /\ community' = m.community)
                   /\ Conf("EndBlock.sigs", estimates' = m.estimates /\ confirms' = m.confirms /\ archived' \cap issued' = m.archived \cap issued'))
 
 TrAdvance == IsEvent("Advance") /\ LET e == Trace[l] IN
   /\ Obs(e.obs) /\ res' = e.res
-  /\ UNCHANGED <<lastTx, lastBatch, tax, limit, claims, supply0, win>> /\ NoMon
+  /\ UNCHANGED <<lastTx, lastBatch, tax, limit, claims, supply0, win, carry>> /\ NoMon
   /\ Always(e)
   /\ Report("C01.AdvanceTouchesNothing", BridgeState' = BridgeState)
   /\ Conf("Advance", height' = height + e.args.dh)
 
 TrEstimate == IsEvent("Estimate") /\ LET e == Trace[l]  a == e.args IN
   /\ Obs(e.obs) /\ res' = e.res
-  /\ UNCHANGED <<lastTx, lastBatch, tax, limit, claims, supply0, win>> /\ NoMon
+  /\ UNCHANGED <<lastTx, lastBatch, tax, limit, claims, supply0, win, carry>> /\ NoMon
   /\ Always(e)
   /\ Conf("Estimate", Estimate(a.v, a.n, a.x))
 
 TrConfirm == IsEvent("Confirm") /\ LET e == Trace[l]  a == e.args IN
   /\ Obs(e.obs) /\ res' = e.res
-  /\ UNCHANGED <<lastTx, lastBatch, tax, limit, claims, supply0, win>> /\ NoMon
+  /\ UNCHANGED <<lastTx, lastBatch, tax, limit, claims, supply0, win, carry>> /\ NoMon
   /\ Always(e)
   /\ (e.res = "ok" => Report("C06.ConfirmOverCurrent", \E b \in batches : b.nonce = a.n /\ b.est = a.x))
   /\ Conf("Confirm", Confirm(a.v, a.n, a.x))
@@ -192,7 +190,7 @@ TrConfirm == IsEvent("Confirm") /\ LET e == Trace[l]  a == e.args IN
 TrEvidence == IsEvent("Evidence") /\ LET e == Trace[l]  a == e.args IN
   /\ Obs(e.obs) /\ res' = e.res
   /\ punished' = IF a.v \in jailed' \ jailed THEN punished \cup {[val |-> a.v, cp |-> EvCp(e), wasIssued |-> EvCp(e) \in issued]} ELSE punished
-  /\ UNCHANGED <<lastTx, lastBatch, tax, limit, claims, accepted, refunded, burned, deposited, burnedSum, sent, supply0, win>>
+  /\ UNCHANGED <<lastTx, lastBatch, tax, limit, claims, accepted, refunded, burned, deposited, burnedSum, sent, supply0, win, carry>>
   /\ Always(e)
   /\ Report("C13.OnlySignerJailed", jailed' \ jailed \subseteq {a.v})
   /\ Conf("Evidence", (e.res = "ok") = ((IF e.known THEN <<a.n, a.x>> ELSE <<a.n, -1>>) \notin archived))
@@ -201,17 +199,17 @@ TrEvidence == IsEvent("Evidence") /\ LET e == Trace[l]  a == e.args IN
 \* (or never was) the validator's registered key can punish nobody
 TrReKey == IsEvent("ReKey") /\ LET e == Trace[l] IN
   /\ Obs(e.obs) /\ res' = e.res /\ punished' = punished
-  /\ UNCHANGED <<lastTx, lastBatch, tax, limit, claims, accepted, refunded, burned, deposited, burnedSum, sent, supply0, win>>
+  /\ UNCHANGED <<lastTx, lastBatch, tax, limit, claims, accepted, refunded, burned, deposited, burnedSum, sent, supply0, win, carry>>
   /\ Always(e)
   /\ Report("Setup.ReKeyed", e.res = "gov")
 TrEvidenceOld == IsEvent("EvidenceOld") /\ LET e == Trace[l]  a == e.args IN
   /\ Obs(e.obs) /\ res' = e.res
   /\ punished' = IF a.v \in jailed' \ jailed THEN punished \cup {[val |-> a.v, cp |-> EvCp(e), wasIssued |-> EvCp(e) \in issued]} ELSE punished
-  /\ UNCHANGED <<lastTx, lastBatch, tax, limit, claims, accepted, refunded, burned, deposited, burnedSum, sent, supply0, win>>
+  /\ UNCHANGED <<lastTx, lastBatch, tax, limit, claims, accepted, refunded, burned, deposited, burnedSum, sent, supply0, win, carry>>
   /\ Always(e)
   /\ Report("C13.OnlyRegisteredKeyPunished", jailed' = jailed /\ e.res = "fail")
 
-TraceInit == Init /\ l = 1 /\ supply0 = [d \in Denoms |-> 0] /\ win = [d \in Denoms |-> NoUsage]
+TraceInit == Init /\ l = 1 /\ supply0 = [d \in Denoms |-> 0] /\ win = [d \in Denoms |-> NoUsage] /\ carry = <<>>
 TraceNext == \/ TrInit \/ TrSend \/ TrCancel \/ TrSetTax \/ TrSetLimit \/ TrClaim("ClaimExecuted") \/ TrClaim("ClaimDeposit")
              \/ TrEndBlock \/ TrAdvance \/ TrEstimate \/ TrConfirm \/ TrEvidence \/ TrReKey \/ TrEvidenceOld
 TraceAccepted == TLCGet("stats").diameter - 1 = Len(Trace)
